@@ -27,7 +27,7 @@ func init() {
 }
 
 var c06Tokens = []string{"vol00+01", "vol01+02", "x", "anything goes", "part-2", "VOL001+002", "a.b.c", "recovery", "[1]", "a*b", "q?", "{z}", "vol[0-9]", "", ".", ".par2", "par2"}
-var c06Bases = []string{"set", "my set", "s[1]", "a*b", "q?x", "x", "archive.v1", "[ab]c", "back\\slash", "trailing\\", "b\\[1]", "{a,b}", "~tilde", "-dash"}
+var c06Bases = []string{"set", "my set", "s[1]", "a*b", "q?x", "x", "archive.v1", "[ab]c", "back\\slash", "trailing\\", "b\\[1]", "{a,b}", "~tilde", "-dash", "backup.par2.2019 [old]", "a.par2.b", "v.vol00+01"}
 
 func hasGlobMeta(s string) bool { return strings.ContainsAny(s, "*?[\\") }
 
@@ -178,7 +178,7 @@ func foreignLayout(r *Run, real bool) {
 		r.Probe("recovery-split-over-files")
 	}
 	d := simdisk.NewMem()
-	dir := "/w/set"
+	dir := []string{"/w/set", "/w/set", "/w/set", "/w/sets.par2/x", "/w/a b/c.par2.d"}[t.Draw(5, "dir")]
 	d.MkdirAll(dir)
 	d.Cwd = dir
 	w := &World{Disk: d, Dir: dir, Base: base, Index: filepath.Join(dir, base+".par2"), Files: files, S: S, R: len(exps), G: 1, N: n,
